@@ -34,7 +34,7 @@ UNITS = [
           defines=["GETTER=%d" % g, "INI_LINES=2", "INI_LINE_MAX=4"], cbmc_flags=["--unwind", "12", "--unwinding-assertions", "--object-bits", "10"],
           functions=[["p_ini_file_sections", "pp_ini_file_prepend_copy"], ["p_ini_file_keys", "pp_ini_file_prepend_copy"], ["p_ini_file_parameter_string", "pp_ini_file_find_parameter"], ["p_ini_file_parameter_list", "pp_ini_file_append_copy", "pp_ini_file_find_parameter"]][g],
           bound="fixed parsed object: one section, one key, value '{a b}'", replay={"driver": "C18_replay.c", "mode": "ini_getter%d" % g, "args": []}) for g in range(4)] + [
-    U("tree_new", "h_tree_new", "misc2.c", ["ptree.c", "ptree-bst.c", "ptree-rb.c", "ptree-avl.c"], defines=["UNIT_TREE_NEW"], canaries=2, functions=["p_tree_new_full", "p_tree_free"], cbmc_flags=["--object-bits", "10"]),
+    U("tree_new", "h_tree_new", "misc2.c", ["ptree.c", "ptree-bst.c", "ptree-rb.c", "ptree-avl.c"], defines=["UNIT_TREE_NEW"], canaries=2, functions=["p_tree_new_full", "p_tree_free"], cbmc_flags=["--unwind", "4", "--unwinding-assertions", "--object-bits", "10"]),
     U("hash_table_new", "h_ht_new", "misc2.c", ["phashtable.c", "plist.c"], defines=["UNIT_HT_NEW"], canaries=2, functions=["p_hash_table_new", "p_hash_table_free"],
       cbmc_flags=["--unwindset", "p_hash_table_free.0:2,p_hash_table_free.1:102", "--unwinding-assertions", "--object-bits", "10"], timeout=300, bound="bucket loop of p_hash_table_free unwound to the fixed table size 101, chain loop once (the table is empty): complete, unwinding assertions on"),
     U("time_profiler_new", "h_profiler", "misc2.c", ["ptimeprofiler.c"], defines=["UNIT_PROFILER"], canaries=2, functions=["p_time_profiler_new", "p_time_profiler_free", "p_time_profiler_reset"], cbmc_flags=[]),
